@@ -462,7 +462,7 @@ class NPGetText(BaseTranslateFilter, TranslatableFilter):
 
 
 def _count(val: Any) -> int | None:
-    if val in (None, False, True):
+    if val is None or val is False or val is True:
         return None
     try:
         return int(val)
